@@ -59,6 +59,28 @@ struct C07 : Scenario {
 				m.payload.clear();
 				m.cut = -1;
 			}
+		// members of length 0 (of any method name), with and without data behind the header, right and wrong recorded CRC
+		if (fam != "burst" && rng.chance(1, 5))
+			for (auto &m : p.members)
+				if (m.kind == 'f' && rng.chance(1, 2)) {
+					bool keep_data = rng.chance(1, 3);
+					Bytes d = keep_data ? member_data(m) : Bytes();
+					m.payload.clear(); m.cut = -1;
+					m.plain.clear();
+					m.data = d;
+					m.orig = 0;
+					m.crc = rng.chance(1, 3) ? (int64_t) (1 + rng.below(65535)) : 0;
+					p.sets("empty_members", "1");
+				}
+		// stored members that end in a run of zero bytes or repeat themselves every 1024 bytes: a reader that hands out
+		// stale buffer contents for bytes the input no longer holds would get length and CRC right by accident
+		if (fam == "truncate")
+			for (auto &m : p.members)
+				if (m.kind == 'f' && m.payload.empty() && !m.plain.empty() && (m.method == "-lh0-" || m.method == "-lz4-" || m.method == "-pm0-") && rng.chance(1, 2)) {
+					if (rng.chance(1, 2)) { size_t k = 1 + rng.below(std::min<size_t>(m.plain.size(), 120)); for (size_t i = m.plain.size() - k; i < m.plain.size(); ++i) m.plain[i] = 0; }
+					else { size_t n = 1100 + rng.below(1200); Bytes pl(n); for (size_t i = 0; i < n; ++i) pl[i] = i < 1024 ? (uint8_t) (i * 31 + 7) : pl[i - 1024]; m.plain = pl; }
+					m.data = m.plain;
+				}
 		if (fam == "burst") for (auto &m : p.members) if (m.kind == 'f' && m.payload.empty() && m.plain.size() > 24) { m.plain.resize(24); m.data = m.plain; }
 		if (fam == "burst") for (auto &m : p.members) if (m.kind == 'f' && !m.payload.empty()) { if (m.cut < 0 || m.cut > 32) m.cut = 17; }
 		if (fam == "rewrite") {
@@ -462,6 +484,7 @@ struct C07 : Scenario {
 		g_sim.counters["evals"] = evals;
 		count("kind.family." + p.scenario);
 		if (p.gets("many_bad") == "1") count("kind.hundreds_of_failing_members");
+		if (p.gets("empty_members") == "1") count("kind.members_of_length_zero");
 		if (!p.gets("clipat").empty()) count(p.gets("clipat") == "*" ? "kind.pattern.star" : "kind.pattern.names");
 		count("kind.cli." + p.gets("clicmd"));
 		count("probe.members_judged_good", n_good);
